@@ -39,6 +39,14 @@ CHECKS = {
             "CMAP reader half (pandas) is not decided and is listed as outside the claim."),
     "C20": ("5/C20", "Real cluster_indels on <= 3/4 sorted calls (symbolic chromosome, interval, Length, blur), real write_indel_file with the text parsed back, real "
             "look_for_indels_in_breakage of both indel finders with symbolic label coordinates."),
+    "C09": ("5/C09", "REDUCTION, not schedules: (1) AlignerEngine.iteration (the only state a call leaves in a worker) is an arbitrary symbolic integer: no branch and no "
+            "output term of the whole real Aligner.align mentions it, the aligner's object graph is otherwise unchanged, a second call returns the same record; (2) the real "
+            "mode logic gives identical files for every order of queries/references. OS schedules, pathos/dill and --cpus are not explored."),
+    "C10": ("5/C10", "REDUCTION: worker-state non-interference as C09; records of a query equal those of a run restricted to it and files are invariant under query / reference "
+            "permutations (real mode logic, 4 modes); per-query selection returns the same candidate for either reference order when scores are distinct. -qId/-rId filters "
+            "and CMAP row order (pandas) are not decided."),
+    "C11": ("5/C11", "Real getSequence: reverse-strand bit vector of Q equals the forward vector of mirror(Q) on the resolution lattice (so seeds coincide); whole real Aligner.align "
+            "on (Q,-) and (mirror(Q),+) with the same arbitrary seeds gives mirrored records (labels k <-> N+1-k, equal Confidence, mirrored header, same HitEnum)."),
 }
 
 NOT_APPLICABLE = {
@@ -69,7 +77,7 @@ def build():
             "evidence_file": f"/verif/evidence/{pid}.json",
             "replay_cmd_template": f"./check {pid} --replay {{path}}",
             "engine": "symx",
-            "level_claimed": {"category": "model_checking", "text": text, "design_ref": ref},
+            "level_claimed": {"category": ("other" if pid in ("C09", "C10") else "model_checking"), "text": text, "design_ref": ref},
             "level_note": note,
             "technique": tech,
         })
